@@ -4,9 +4,10 @@ import Verif.Proofs.C09XmlLexSound
 # C09 (XML) — property-level theorems
 
 * `xml_lex_roundtrip` — the independent tokeniser is a left inverse of serialisation on grammatical streams.
-* `xml_output_relexes` (`_partial` with the trigger of K-C09-Xml-1 as guard, `_counterexample` for the full
-  statement) — flagship: the bytes written by the model of `xml.Minify` re-tokenise to exactly the intended stream.
-* `xml_second_pass_defined` — the stream read back satisfies the hypotheses of all C06 / C09 theorems again.
+* `xml_output_relexes` — flagship, full (the former guard `piEndHazard`, trigger of K-C09-Xml-1, is gone: fixed in /repo
+  59fe76b, the model `Model/Xml.lean` follows): the bytes written by the model of `xml.Minify` re-tokenise to exactly
+  the intended stream.
+* `xml_second_pass_defined` — (full) the stream read back satisfies the hypotheses of all C06 / C09 theorems again.
 * `xml_idempotent_counterexample` — the second pass is in general not the identity (not a C09 violation).
 -/
 namespace Verif.Proofs.C09Xml
@@ -36,42 +37,35 @@ def exCanon : List XTok :=
 example : canonOk false exCanon = true ∧
     bytesOf exCanon = "<?x y?><a k=\"v&lt;\" l='\"'>t &amp; u<![CDATA[<<<<<]]><b/></a >".toList := by decide
 
-/-- **xml_output_relexes** — full statement: for all options and all token streams of the lexer contract whose
-tokens follow the XML grammar, the output bytes re-tokenise to the emitted stream (reader's view). -/
-def xml_output_relexes_full : Prop :=
-  ∀ (o : XmlOpts) (ts : List XTok), (∀ x ∈ ts, WfTokP x) → lexOk .content ts = true →
-    xmlTokens (xmlMinify o ts) = some (view (emit o true ts))
-
-/-- **xml_output_relexes_partial** (guard = trigger of K-C09-Xml-1 `piEndHazard`: a double-quoted pseudo-attribute
-of a PI whose value, references decoded, contains `?>`): for ALL options and ALL token streams `ts` that satisfy
-the lexer contract `lexOk` (shape, names, delimiters) and whose text / attribute / CDATA tokens follow the XML 1.0
-grammar (`WfTokP`), the bytes written by the loop of `xml.go` (all branches: text with entity replacement, white
-space trimming and `escapeCDEnd`; CDATA kept or converted by `EscapeCDATAVal`; attributes through `ReplaceEntities`
-and `EscapeAttrVal`; comments dropped; `<a></a>` → `<a/>`; end tags, PIs, DOCTYPE) are accepted by the independent
-tokeniser and re-tokenise to EXACTLY the intended token stream `emit o true ts` in reader's view (adjacent text
-tokens are one run of character data; PI data is raw).  In particular every attribute literal ends where intended,
-there is no raw `<` / bare `&`, a kept CDATA section ends at its own `]]>`, no `]]>` occurs in character data, and
-the stream is grammatical (`canonOk`). -/
-theorem xml_output_relexes_partial (o : XmlOpts) (ts : List XTok) (hwf : ∀ x ∈ ts, WfTokP x)
-    (hlex : lexOk .content ts = true) (hz : piEndHazard false ts = false) :
+/-- **xml_output_relexes** (full): for ALL options and ALL token streams `ts` that satisfy the lexer contract `lexOk`
+(shape, names, delimiters; no `>` / `/>` token inside a PI) and whose text / attribute / CDATA tokens follow the XML 1.0
+grammar (`WfTokP`), the bytes written by the loop of `xml.go` (all branches: text with entity replacement, white space
+trimming and `escapeCDEnd`; CDATA kept or converted by `EscapeCDATAVal`; attributes through `ReplaceEntities` and
+`EscapeAttrVal`, pseudo-attributes of a PI through `EscapeAttrVal` only (59fe76b); comments dropped; `<a></a>` → `<a/>`;
+end tags, PIs, DOCTYPE) are accepted by the independent tokeniser and re-tokenise to EXACTLY the intended token stream
+`emit o true ts` in reader's view (adjacent text tokens are one run of character data; PI data is raw).  In particular
+every attribute literal ends where intended, there is no raw `<` / bare `&`, a kept CDATA section ends at its own `]]>`,
+no `]]>` occurs in character data, a PI ends at its own `?>`, and the stream is grammatical (`canonOk`). -/
+theorem xml_output_relexes (o : XmlOpts) (ts : List XTok) (hwf : ∀ x ∈ ts, WfTokP x)
+    (hlex : lexOk .content ts = true) :
     xmlTokens (xmlMinify o ts) = some (view (emit o true ts)) ∧ canonOk false (view (emit o true ts)) = true := by
-  obtain ⟨h1, h2, h3, h4⟩ := emit_facts o ts hwf hlex hz
+  obtain ⟨h1, h2, h3, h4⟩ := emit_facts o ts hwf hlex
   have hc := view_canonOk (emit o true ts) h1 h4 h3 h2
   refine ⟨?_, hc⟩
   have := lex_roundtrip _ hc
-  rwa [bytesOf_view, bytesOf_renderAll] at this
+  rwa [bytesOf_view, ← xmlMinify_bytes o ts h3] at this
 
-/-- **xml_output_markup_exact** (same guard): the stream read back from the output bytes has exactly the markup skeleton
-of the emitted stream — the same start tags, attributes with the same value literals, `>` / `/>`, end tags, kept CDATA
+/-- **xml_output_markup_exact** (full): the stream read back from the output bytes has exactly the markup skeleton of the
+emitted stream — the same start tags, attributes with the same value literals, `>` / `/>`, end tags, kept CDATA
 sections, DOCTYPE, PI targets, in the same order (`skeleton` drops only `text` tokens and the data items of PIs) — and
 the same bytes: the reader's view differs from the intended stream only in how character data and PI data are grouped. -/
 theorem xml_output_markup_exact (o : XmlOpts) (ts : List XTok) (hwf : ∀ x ∈ ts, WfTokP x)
-    (hlex : lexOk .content ts = true) (hz : piEndHazard false ts = false) :
+    (hlex : lexOk .content ts = true) :
     ∃ ts', xmlTokens (xmlMinify o ts) = some ts' ∧ skeleton ts' = skeleton (emit o true ts) ∧
       bytesOf ts' = xmlMinify o ts := by
-  obtain ⟨hre, _⟩ := xml_output_relexes_partial o ts hwf hlex hz
-  obtain ⟨_, _, h3, _⟩ := emit_facts o ts hwf hlex hz
-  exact ⟨_, hre, view_skeleton _ h3, by rw [bytesOf_view, bytesOf_renderAll]; rfl⟩
+  obtain ⟨hre, _⟩ := xml_output_relexes o ts hwf hlex
+  obtain ⟨_, _, h3, _⟩ := emit_facts o ts hwf hlex
+  exact ⟨_, hre, view_skeleton _ h3, by rw [bytesOf_view, xmlMinify_bytes o ts h3]⟩
 
 /-- tokens of `<a k="v&#9;"> x <b/> y <!--c--> z</a>` as the dependency lexer delivers them -/
 def exLex : List XTok :=
@@ -96,12 +90,12 @@ theorem exLex_wf : ∀ x ∈ exLex, WfTokP x := by
 
 /-- the hypotheses are satisfiable by a document with mixed content, a reference in an attribute and a comment; the
 adjacent text tokens ` y` and ` z` (comment removed in between) are one run for the reader -/
-example : (∀ x ∈ exLex, WfTokP x) ∧ lexOk .content exLex = true ∧ piEndHazard false exLex = false ∧
+example : (∀ x ∈ exLex, WfTokP x) ∧ lexOk .content exLex = true ∧
     xmlMinify ⟨false⟩ exLex = "<a k=\"v&#9;\">x<b/> y z</a>".toList ∧
     view (emit ⟨false⟩ true exLex) =
       [.startTag ['a'], .attr ['k'] ['"', 'v', '&', '#', '9', ';', '"'], .startTagClose, .text ['x'],
        .startTag ['b'], .startTagCloseVoid, .text [' ', 'y', ' ', 'z'], .endTag ['<', '/', 'a', '>'] ['a']] :=
-  ⟨exLex_wf, by decide, by decide, by decide, by decide⟩
+  ⟨exLex_wf, by decide, by decide, by decide⟩
 
 /-- tokens of `<a><?x k="?&gt;"?></a>` (K-C09-Xml-1) -/
 def exPiEnd : List XTok :=
@@ -119,43 +113,37 @@ theorem exPiEnd_wf : ∀ x ∈ exPiEnd, WfTokP x := by
   · trivial
   · trivial
 
-/-- **xml_output_relexes_counterexample**: the full statement is false — `<a><?x k="?&gt;"?></a>` is written as
-`<a><?x k="?>"?></a>`: the PI now ends inside the former attribute value and `"?>` becomes character data
-(reproduced on the real code: K-C09-Xml-1). -/
-theorem xml_output_relexes_counterexample : ¬ xml_output_relexes_full := by
-  intro h
-  have := h ⟨false⟩ exPiEnd exPiEnd_wf (by decide)
-  revert this
-  decide
+/-- regression of K-C09-Xml-1 (fixed in /repo 59fe76b): `<a><?x k="?&gt;"?></a>` is written byte for byte — the reference
+inside the PI is not decoded, the PI ends at its own `?>` -/
+example : (∀ x ∈ exPiEnd, WfTokP x) ∧ lexOk .content exPiEnd = true ∧
+    xmlMinify ⟨false⟩ exPiEnd = "<a><?x k=\"?&gt;\"?></a>".toList ∧
+    xmlTokens (xmlMinify ⟨false⟩ exPiEnd) = some (view (emit ⟨false⟩ true exPiEnd)) :=
+  ⟨exPiEnd_wf, by decide, by decide, by decide⟩
 
-example : xmlMinify ⟨false⟩ exPiEnd = "<a><?x k=\"?>\"?></a>".toList ∧ piEndHazard false exPiEnd = true := by decide
-
-/-- **xml_second_pass_defined** (item 5; same guard): the token stream `ts'` read back from the output bytes by the
-independent tokeniser (it exists and is the reader's view of the emitted stream) satisfies ALL hypotheses of the
-C06 theorems and of `xml_output_relexes_partial` again — token contents follow the grammar (`WfTokP`), the lexer
-contract `lexOk` with `lexShape` and `bareInPI`, and the guard `piEndHazard` is false — so the model of the
-minifier is defined on it, every C06 guarantee (`xml_infoset`, `xml_wellformed`, `xml_attr_value`, …) holds for the
-second pass, and the output of the second pass again re-tokenises to its intended stream (for every option set of
-the second pass). -/
+/-- **xml_second_pass_defined** (item 5; full): the token stream `ts'` read back from the output bytes by the independent
+tokeniser (it exists and is the reader's view of the emitted stream) satisfies ALL hypotheses of the C06 theorems and of
+`xml_output_relexes` again — token contents follow the grammar (`WfTokP`), the lexer contract `lexOk` with `lexShape` and
+`bareInPI` — so the model of the minifier is defined on it, every C06 guarantee (`xml_infoset`, `xml_wellformed`,
+`xml_attr_value`, …) holds for the second pass, and the output of the second pass again re-tokenises to its intended
+stream (for every option set of the second pass). -/
 theorem xml_second_pass_defined (o : XmlOpts) (ts : List XTok) (hwf : ∀ x ∈ ts, WfTokP x)
-    (hlex : lexOk .content ts = true) (hz : piEndHazard false ts = false) :
+    (hlex : lexOk .content ts = true) :
     ∃ ts', xmlTokens (xmlMinify o ts) = some ts' ∧
       (∀ x ∈ ts', WfTokP x) ∧ lexOk .content ts' = true ∧ lexShape false ts' = true ∧ bareInPI false ts' = true ∧
-      piEndHazard false ts' = false ∧
       ∀ o2 : XmlOpts, xmlTokens (xmlMinify o2 ts') = some (view (emit o2 true ts')) ∧
         canonOk false (view (emit o2 true ts')) = true := by
-  obtain ⟨hre, hc⟩ := xml_output_relexes_partial o ts hwf hlex hz
-  obtain ⟨h1, _, _, _⟩ := emit_facts o ts hwf hlex hz
+  obtain ⟨hre, hc⟩ := xml_output_relexes o ts hwf hlex
+  obtain ⟨h1, _, _, _⟩ := emit_facts o ts hwf hlex
   have hwf' : ∀ x ∈ view (emit o true ts), WfTokP x := by
     have hin : ∀ x ∈ emit o true ts, WfTokP x := by
       intro x hx
       have := h1 x hx
       cases x <;> exact this
     exact (viewGo_wfTokP _ hin).1 [] (Or.inl rfl)
-  obtain ⟨hl', hz'⟩ := canon_lexOk _ _ (Nat.le_refl _) false hc
+  have hl' := canon_lexOk _ _ (Nat.le_refl _) false hc
   simp only [Bool.false_eq_true, if_false] at hl'
   have hsh := lexOk_shape _ .content hl'
-  exact ⟨_, hre, hwf', hl', hsh.1, hsh.2, hz', fun o2 => xml_output_relexes_partial o2 _ hwf' hl' hz'⟩
+  exact ⟨_, hre, hwf', hl', hsh.1, hsh.2, fun o2 => xml_output_relexes o2 _ hwf' hl'⟩
 
 /-- **xml_lex_sound** (full; specification side only): whatever the independent tokeniser returns follows the grammar of
 token streams — with `xml_lex_roundtrip` it is a retraction of byte strings onto grammatical streams. -/
@@ -171,17 +159,17 @@ def passes : List XmlOpts → List Char → Option (List Char)
   | [], s => some s
   | o :: os, s => (passBytes o s).bind (passes os)
 
-/-- **xml_accepted_in_accepted_out** (full, no guard, hypotheses on BYTES only): for EVERY byte string the independent
-tokeniser accepts (every document that is well-formed at the token level) and every option set, the output of the
-model of `xml.Minify` on its tokens is accepted by the tokeniser again and re-tokenises to exactly the intended stream.
-(With the tokeniser as front end the data of a PI is one raw item, so the trigger of K-C09-Xml-1 cannot hold; the
-real lexer's deviations from this front end are K-C09-Xml-1, K-C09-Xml-4 and K-C09-Xml-5.) -/
+/-- **xml_accepted_in_accepted_out** (full, hypotheses on BYTES only): for EVERY byte string the independent tokeniser
+accepts (every document that is well-formed at the token level) and every option set, the output of the model of
+`xml.Minify` on its tokens is accepted by the tokeniser again and re-tokenises to exactly the intended stream.  (The
+tokeniser as front end delivers the data of a PI as one raw item; the real lexer's deviation from this front end that
+still matters is K-C09-Xml-4, the DOCTYPE token.) -/
 theorem xml_accepted_in_accepted_out (o : XmlOpts) (s : List Char) (vs : List XTok) (h : xmlTokens s = some vs) :
     xmlTokens (xmlMinify o vs) = some (view (emit o true vs)) ∧ canonOk false (view (emit o true vs)) = true := by
   have hc := lex_sound s vs h
-  obtain ⟨hl, hz⟩ := canon_lexOk _ _ (Nat.le_refl _) false hc
+  have hl := canon_lexOk _ _ (Nat.le_refl _) false hc
   simp only [Bool.false_eq_true, if_false] at hl
-  exact xml_output_relexes_partial o vs (canon_wfTokP _ _ (Nat.le_refl _) false hc) hl hz
+  exact xml_output_relexes o vs (canon_wfTokP _ _ (Nat.le_refl _) false hc) hl
 
 /-- **xml_passes_defined** (full): minification can be repeated for ever — for every accepted document and every finite
 sequence of option sets, every pass is defined and its output is accepted by the tokeniser again. -/
@@ -218,7 +206,7 @@ theorem exIdem_wf : ∀ x ∈ exIdem, WfTokP x := by
 
 /-- idempotence — full statement: the second pass reproduces the token stream of the first -/
 def xml_idempotent_full : Prop :=
-  ∀ (o : XmlOpts) (ts : List XTok), (∀ x ∈ ts, WfTokP x) → lexOk .content ts = true → piEndHazard false ts = false →
+  ∀ (o : XmlOpts) (ts : List XTok), (∀ x ∈ ts, WfTokP x) → lexOk .content ts = true →
     view (emit o true (view (emit o true ts))) = view (emit o true ts)
 
 /-- **xml_idempotent_counterexample**: minification is NOT idempotent (this is no C09 violation: both outputs are
@@ -228,7 +216,7 @@ Further instances on the real code: `<a>a&#32; b</a>` → `<a>a  b</a>` → `<a>
 `<a> </a>` → `<a/>`. -/
 theorem xml_idempotent_counterexample : ¬ xml_idempotent_full := by
   intro h
-  have := h ⟨false⟩ exIdem exIdem_wf (by decide) (by decide)
+  have := h ⟨false⟩ exIdem exIdem_wf (by decide)
   revert this
   decide
 
